@@ -543,7 +543,7 @@ func runAttempt(t testing.TB, sc schedule) (res *attemptResult, setupErr error) 
 }
 
 func TestCheck(t *testing.T) {
-	run := ev.Start("C19", "one case = one seeded network schedule over a cluster variant (N validators, optionally N+2 committee nodes with elections, StateRootInHeader, extensible pool in front of the service, tiny block limits, MaxTimePerBlock): real consensus services over real ledgers and block queues; fault phases drawn from the seed (loss, duplication, delay/reordering, partitions, targeted loss of view-0 prepare responses so that some validators commit while the others change view, up to f validators cut/mute/deaf/late; impaired+lagging <= f outside partitions) alternate with quiet phases in which bounded progress is demanded; transactions are pooled at random subsets of nodes and fetched through RequestTx. Distinct = cluster variant x fault kinds applied x mechanisms reached (view change, recovery, tx fetch, block sync, duplication, reordering); non-trivial = blocks were produced under faults and the offline checker compared the ledgers of all nodes")
+	run := ev.Start("C19", "one case = one seeded network schedule over a cluster variant (N validators, optionally N+2 committee nodes with elections, or a ValidatorsHistory that changes the number of validators 4->7 / 7->4 at an epoch boundary inside the run, StateRootInHeader, extensible pool in front of the service, tiny block limits, MaxTimePerBlock): real consensus services over real ledgers and block queues; fault phases drawn from the seed (loss, duplication, delay/reordering, partitions, targeted loss of view-0 prepare responses so that some validators commit while the others change view, loss of every view-0 proposal so that later primaries take over, up to f validators cut/mute/deaf/late; impaired+lagging <= f outside partitions) alternate with quiet phases in which bounded progress is demanded; transactions are pooled at random subsets of nodes and fetched through RequestTx. Distinct = cluster variant x fault kinds applied x mechanisms reached (view change, recovery, tx fetch, block sync, duplication, reordering); non-trivial = blocks were produced under faults and the offline checker compared the ledgers of all nodes")
 	defer run.Finish()
 	run.Assume("the simulated network stands for the P2P layer: payloads, blocks and transactions are re-encoded and re-decoded on every hop; inv/getdata/response exchanges are folded into one message that can be lost, duplicated or delayed")
 	run.Assume("validators are honest or silent/late (cut, mute, deaf, delayed); Byzantine payloads are out of scope of the property")
@@ -696,7 +696,7 @@ func report(run *ev.Run, sc schedule, att int, res *attemptResult) {
 	sig := fmt.Sprintf("%s faults=%s viewchange=%v recovery=%v reqtx=%v sync=%v dup=%v reorder=%v",
 		sc.Cfg, strings.Join(kinds, ","), viewChanges > 0, recoveries > 0, res.net["delivered_tx"] > 0, res.net["delivered_syncblock"] > 0, res.net["duplicated"] > 0, res.net["reordered"] > 0)
 	nontrivial := res.faultBlocks > 0 && res.an.obs["heights_agreed"] > 0 && res.an.obs["node_height_hashes_compared"] > 0
-	if res.stall == "" || att == 3 {
+	if res.stall == "" || att == 3 || len(res.an.findings) > 0 {
 		run.Case(sig, nontrivial)
 	}
 	run.Sample(map[string]any{"schedule": sc.ID, "attempt": att, "config": sc.Cfg.String(), "steps": res.steps, "final_heights": res.heights,
